@@ -311,6 +311,26 @@ func checkC12(c C12Case) h.Outcome {
 			o.Classes = append(o.Classes, "within-limit-accepted")
 		}
 	}
+	// ---- the same payload on an unverified decoder FIRST (a multi-IdP deployment pre-decodes every message), then on
+	// a validator of a service provider with its own limit: the second call decides by its own limit, exactly as alone
+	if size := int64(len(raw)); size > L && size <= defaultLimit && len(comp) < 1<<20 {
+		for _, pre := range c12Entries {
+			if pre.limited {
+				continue
+			}
+			for _, e := range c12Entries {
+				if !e.limited {
+					continue
+				}
+				pre.f(nil, compIn)
+				if _, err := e.f(spc.Build(), compIn); err == nil {
+					o.Violation = h.V("over-limit-accepted-after-predecode/"+e.name, "%s accepted a compressed message inflating to %d bytes with limit %d when %s had just decoded the same payload", e.name, size, L, pre.name)
+					return o
+				}
+				o.Classes = append(o.Classes, "predecode-then-validate")
+			}
+		}
+	}
 	o.Classes = dedup(o.Classes)
 	return o
 }
